@@ -212,8 +212,7 @@ def _encode_kind(rec, kind):
 
 D2 = [("warm", "T"), ("inv", "T"), ("T", "inv"), ("mul", "inv"), ("inv", "mul"), ("neg", "inv"), ("sqrt", "inv"), ("inv", "sqrt"),
       ("mul", "sqrt"), ("div", "T"), ("mul", "mul"), ("inv", "inv"), ("sqrt", "T")]
-QUICK_D2_KINDS = ["pos_diagonal", "tri_lower", "trifact_neg_lower", "dense_pd", "dense_square", "eig_pd", "lowrank_sym",
-                  "lowrank_square_neg", "blockdiag_pd", "scaled_orthogonal", "inv_lu", "dense_def_neg", "lowrank_square_k2",
+QUICK_D2_KINDS = ["pos_diagonal", "tri_lower", "dense_square", "lowrank_square_neg", "scaled_orthogonal", "inv_lu", "lowrank_square_k2",
                   "lowrank_square_k2_cap"]
 HEAVY = ("lowrank_pd", "dense_pd_product")  # Cholesky/sqrtm chains: seconds per obligation
 
@@ -236,9 +235,14 @@ def cases(tier):
                 for op in UNARY:
                     if not thorough and kind in ("softabs_dense", "blockdiag_pd") and op in ("sqrt", "mul", "div", "inv"):
                         continue
+                    if not thorough and kind in ("softabs_diag", "trifact_pd_upper", "eig_pd", "dense_pd_product_inner", "lowrank_pd_inner",
+                                                 "dense_def_neg_factor", "dense_pd_factor") and op in ("div", "neg"):
+                        continue
                     G(f"leaf/{kind}/n{n}/{op}", [("leaf", {"kind": kind, "n": n, "ops": (op,)})])
-            else:
+            elif thorough:
                 G(f"leaf/{kind}/n{n}/unary", [("leaf", {"kind": kind, "n": n, "ops": (op,)}) for op in UNARY])
+            else:
+                G(f"leaf/{kind}/n{n}/unary", [("leaf", {"kind": kind, "n": n, "ops": (op,)}) for op in ("inv", "mul")])
         for kind in ml.RECT:
             G(f"rect/{kind}/n{n}", [("leaf", {"kind": kind, "n": n})]
               + [("leaf", {"kind": kind, "n": n, "ops": (op,)}) for op in ("T", "neg", "mul", "div")])
